@@ -191,8 +191,27 @@ CONTRACTS = {
         modifies=["self.stmts"],
         ensures=["same_ref(self.stmts, stmts)"],
     ),
-    "Canvas.display_canvas": dict(params=["self"], returns="Statement", assumed=True, modifies=[],
-                                  raises={"ValueError": None}),
+    "Canvas.display_canvas": dict(
+        modifies=[],
+        raises={"ValueError": "self.tensors is None"},
+        ensures=[("shows_the_canvas",
+                  "isinstance(result, SExpr) and isinstance(cast(SExpr, result).expr, EFunc) and "
+                  "cast(EFunc, cast(SExpr, result).expr).name == 'displayCanvas' and "
+                  "len(cast(EFunc, cast(SExpr, result).expr).args) == 1 and "
+                  "cast(EFunc, cast(SExpr, result).expr).args[0] == AJust(EVar('canvas'))")],
+    ),
+    "Graphics.make_footer": dict(
+        requires=[("canvas_displays_the_same_program", "same_ref(self.canvas.program, self.program)")],
+        modifies=[],
+        raises={"ValueError": None},
+        ensures=[("silent_without_display",
+                  "implies(self.program.get_spacetime() is None or self.metrics is not None, "
+                  "        isinstance(result, SBlock) and len(cast(SBlock, result).stmts) == 0)"),
+                 ("displayed_once_otherwise",
+                  "implies(self.program.get_spacetime() is not None and self.metrics is None, "
+                  "        isinstance(result, SExpr) and isinstance(cast(SExpr, result).expr, EFunc) and "
+                  "        cast(EFunc, cast(SExpr, result).expr).name == 'displayCanvas')")],
+    ),
     # the canvas is created over snapshots that the display cannot tell from the tensors as they are NOW (same
     # variable name, same access ranks), the output (the live object) last; one createCanvas argument per snapshot,
     # spelled from that snapshot's name
